@@ -1052,3 +1052,41 @@ package scipipe
 //@   loop 0 invariant upstream: forall j int, q ref :: 0 <= j && j < $i && q != nil && directUp(q, finalProcs[j]) ==> procName(q) in procsToRun
 //@   loop 0 invariant closed: forall k string, q ref :: k in procsToRun && q != nil && directUp(q, procOf(k)) ==> procName(q) in procsToRun
 //@   loop 0 invariant nothing-else: forall k string :: k in procsToRun ==> (exists j int :: 0 <= j && j < $i && k == procName(finalProcs[j])) || (exists k2 string :: k2 in procsToRun && directUp(procOf(k), procOf(k2)))
+
+// ---------------------------------------------------------------------------
+// C04 / C08: sending and closing (port.go)
+// ---------------------------------------------------------------------------
+
+// Ghost log of an out-port: the sequence of IPs handed to OutPort.Send (by the goroutine under verification).
+//@ ghost var outN arr[ref]int
+//@ ghost var outAt arr[ref]arr[int]ref
+// Ghost count of CloseConnection calls received by an in-port
+//@ ghost var closeCalls arr[ref]int
+
+// Every remote in-port of an out-port has its own channel, is registered under its own name, and is non-nil.
+//@ define wfOutPort(pt *OutPort) bool = pt.RemotePorts != nil && (forall r string :: r in pt.RemotePorts ==> pt.RemotePorts[r] != nil && pt.RemotePorts[r].Chan != nil) && (forall r1 string, r2 string :: r1 in pt.RemotePorts && r2 in pt.RemotePorts && r1 != r2 ==> pt.RemotePorts[r1] != pt.RemotePorts[r2] && pt.RemotePorts[r1].Chan != pt.RemotePorts[r2].Chan)
+//@ define isRemoteChan(pt *OutPort, c chan *FileIP) bool = exists r string :: r in pt.RemotePorts && pt.RemotePorts[r].Chan == c
+
+//@ func (*InPort).Send(pt, ip)
+//@   props C04 C08
+//@   modifies chan(pt.Chan)
+//@   ensures appended: chanSentN(pt.Chan) == old(chanSentN(pt.Chan)) + 1 && chanSentAt(pt.Chan, old(chanSentN(pt.Chan))) == ip
+//@   ensures earlier-kept: forall j int :: 0 <= j && j < old(chanSentN(pt.Chan)) ==> chanSentAt(pt.Chan, j) == old(chanSentAt(pt.Chan, j))
+//@   ensures no-receive: chanRecvN(pt.Chan) == old(chanRecvN(pt.Chan)) && chanRecvA(pt.Chan) == old(chanRecvA(pt.Chan)) && chanClosed(pt.Chan) == old(chanClosed(pt.Chan))
+
+//@ func (*OutPort).Send(pt, ip)
+//@   props C04 C08
+//@   requires wf: wfOutPort(pt)
+//@   modifies chan, outN, outAt
+//@   ghost set outAt = update(outAt, pt, update(outAt[pt], outN[pt], ip))
+//@   ghost set outN = update(outN, pt, outN[pt] + 1)
+//@   ensures each-remote-exactly-once[C04]: forall r string :: r in pt.RemotePorts ==> chanSentN(pt.RemotePorts[r].Chan) == old(chanSentN(pt.RemotePorts[r].Chan)) + 1 && chanSentAt(pt.RemotePorts[r].Chan, old(chanSentN(pt.RemotePorts[r].Chan))) == ip
+//@   ensures appended-at-end[C08]: forall r string, j int :: r in pt.RemotePorts && 0 <= j && j < old(chanSentN(pt.RemotePorts[r].Chan)) ==> chanSentAt(pt.RemotePorts[r].Chan, j) == old(chanSentAt(pt.RemotePorts[r].Chan, j))
+//@   ensures other-channels-untouched[C04]: forall c chan *FileIP :: !isRemoteChan(pt, c) ==> chanSentN(c) == old(chanSentN(c))
+//@   ensures logged: outN == update(old(outN), pt, old(outN)[pt] + 1) && outAt == update(old(outAt), pt, update(old(outAt)[pt], old(outN)[pt], ip))
+//@   loop 0 invariant vis: forall r string :: $visited[r] ==> r in pt.RemotePorts
+//@   loop 0 invariant sent: forall r string :: $visited[r] ==> chanSentN(pt.RemotePorts[r].Chan) == old(chanSentN(pt.RemotePorts[r].Chan)) + 1 && chanSentAt(pt.RemotePorts[r].Chan, old(chanSentN(pt.RemotePorts[r].Chan))) == ip
+//@   loop 0 invariant not-yet: forall r string :: r in pt.RemotePorts && !$visited[r] ==> chanSentN(pt.RemotePorts[r].Chan) == old(chanSentN(pt.RemotePorts[r].Chan))
+//@   loop 0 invariant earlier-kept: forall r string, j int :: r in pt.RemotePorts && 0 <= j && j < old(chanSentN(pt.RemotePorts[r].Chan)) ==> chanSentAt(pt.RemotePorts[r].Chan, j) == old(chanSentAt(pt.RemotePorts[r].Chan, j))
+//@   loop 0 invariant others: forall c chan *FileIP :: !isRemoteChan(pt, c) ==> chanSentN(c) == old(chanSentN(c))
+//@   loop 0 invariant log-untouched: outN == old(outN) && outAt == old(outAt)
